@@ -42,7 +42,7 @@ def _mpi_cases(seed, n):
 
     @hseed(seed)
     @settings(database=None, deadline=None, derandomize=False, max_examples=n, suppress_health_check=list(HealthCheck))
-    @given(st.integers(2, 4).flatmap(lambda p: st.lists(st.lists(st.integers(0, 40), min_size=p, max_size=p), min_size=1, max_size=4)))
+    @given(st.integers(2, 4).flatmap(lambda p: st.lists(st.lists(st.integers(0, 40) | st.sampled_from([0, 1, 2, 3, 7, 15, 17, 33, 65, 70, 130]), min_size=p, max_size=p), min_size=1, max_size=4)))
     def gen(rounds):
         out.append(rounds)
     gen()
@@ -83,14 +83,14 @@ def run(tier, seed, res):
     res.absorb(wr, "stress")
     collect(res, wr)
     # MPI part
-    cases = _mpi_cases(seed, 10 if quick else 400)
+    cases = _mpi_cases(seed, 24 if quick else 400)
     rd = core.run_dir(PROP)
     jobs = []
     for i, rounds in enumerate(cases):
         p = os.path.join(rd, "mpi%04d.case" % i)
         with open(p, "w") as f:
             f.write(_mpi_text(rounds))
-        jobs.append(dict(cmd=["mpiexec", "--oversubscribe", "-n", str(len(rounds[0])), m, p], tag="mpi", timeout=300))
+        jobs.append(dict(cmd=["mpiexec", "--oversubscribe", "-x", "MALLOC_PERTURB_", "-n", str(len(rounds[0])), m, p], env=perturb, tag="mpi", timeout=300))
     wr = core.run_workers(PROP, jobs, san=False, max_parallel=5)
     res.absorb(wr, "mpi")
     for f in wr.failures:
